@@ -51,6 +51,8 @@ type rtCheck struct {
 	// driven in addition to the check's own designs; StreamPerMethod the cases per streaming method.
 	StreamSpecs     [2]int
 	StreamPerMethod [2]int
+	// StreamCases builds the cases of a streaming method of that batch (default cases.Stream).
+	StreamCases func(sp *spec.Spec, sv *spec.Service, m *spec.Method, r *vc.Rand, n, start int) []*rt.Case
 	// Unions lets a share of the check's designs carry OneOf attributes in request/response bodies (gen/union.go).
 	Unions bool
 	// Multipart lets a share of the body-carrying methods be MultipartRequest() endpoints (gen/multipart.go), driven
@@ -218,7 +220,11 @@ func runRuntime(c *rtCheck) {
 				for mi, m := range sv.Methods {
 					r := run.Rand(8, uint64(di), uint64(si), uint64(mi))
 					if m.Stream != "" {
-						cs = append(cs, cases.Stream(d.Spec, sv, m, r, c.StreamPerMethod[ti], len(cs))...)
+						mkStream := cases.Stream
+						if c.StreamCases != nil {
+							mkStream = c.StreamCases
+						}
+						cs = append(cs, mkStream(d.Spec, sv, m, r, c.StreamPerMethod[ti], len(cs))...)
 					} else {
 						cs = append(cs, c.MkCases(d.Spec, sv, m, r, min(c.PerMethod[ti], 8), len(cs))...)
 					}
